@@ -57,6 +57,9 @@ pub struct AirSpec {
     pub exemptions: usize,
     pub asserts: Vec<ASpec>,
     pub aux: Aux,
+    /// power applied to the running-sum increment: s' = s + (r_j * m_0 [+ r_{j+1} * m_last])^aux_pow - the degree
+    /// of the auxiliary transition constraints (1 = plain running sums)
+    pub aux_pow: u32,
     pub tail: Tail,
     /// initial state selector per column: 0 -> 0, 1 -> 1, 2 -> p-1, else seeded
     pub init: u8,
@@ -99,6 +102,39 @@ impl AirSpec {
             })
             .collect()
     }
+    /// (base degree, cycle lengths of the periodic columns involved) of every transition constraint: main rules,
+    /// then the auxiliary running sums - written from the rules, independently of the AIR context
+    pub fn constraint_degrees(&self) -> Vec<(usize, Vec<usize>)> {
+        let mut v: Vec<(usize, Vec<usize>)> = self
+            .rules
+            .iter()
+            .map(|r| match r {
+                Rule::Pow { d, .. } => ((*d as usize).max(1), vec![]),
+                Rule::Periodic { cycle, .. } => (1, vec![*cycle]),
+                Rule::Periodic2 { cycle_a, cycle_b } => (1, vec![*cycle_a, *cycle_b]),
+                Rule::Rot { .. } | Rule::FibA | Rule::FibB => (1, vec![]),
+            })
+            .collect();
+        for _ in 0..self.sum_cols() {
+            v.push((self.aux_pow.max(1) as usize, vec![]));
+        }
+        v
+    }
+    /// The documented refusal of `AirContext::set_num_transition_exemptions`: with the constraint-evaluation
+    /// domain sized for the highest degree class (blowup class of a constraint = max(2, next_pow2(total degree - 1)),
+    /// total degree = base degree + number of periodic columns), the composition polynomial of some constraint
+    /// would not fit any more with this many exemptions. Descriptions for which this holds are outside the
+    /// supported class; every other panic of the AIR constructor is a defect.
+    pub fn exemptions_exceed_degree_budget(&self) -> bool {
+        let n = self.n;
+        let degs = self.constraint_degrees();
+        let ce_blowup = degs.iter().map(|(b, c)| (b + c.len()).saturating_sub(1).next_power_of_two().max(2)).max().unwrap_or(2);
+        degs.iter().any(|(b, c)| {
+            let eval_degree = b * (n - 1) + c.iter().map(|cy| (n / cy) * (cy - 1)).sum::<usize>();
+            let max_exemptions = (n * ce_blowup - 1) + n - eval_degree;
+            self.exemptions > max_exemptions
+        })
+    }
     /// smallest blowup factor the declared degrees need
     pub fn min_blowup(&self) -> usize {
         let mut b = 2;
@@ -109,6 +145,9 @@ impl AirSpec {
                 _ => 0,
             };
             b = b.max(bound.next_power_of_two().max(2));
+        }
+        if self.aux_width() > 0 {
+            b = b.max(((self.aux_pow.max(1) as usize) - 1).next_power_of_two().max(2));
         }
         b
     }
@@ -145,12 +184,13 @@ impl AirSpec {
             Aux::Sum { cols, rands } => v.extend([1, cols as u64, rands as u64]),
             Aux::SumLagrange { cols, rands } => v.extend([2, cols as u64, rands as u64]),
         }
+        v.push(self.aux_pow as u64);
         v
     }
     pub fn json(&self) -> Value {
         json!({
             "n": self.n, "width": self.width(), "rules": format!("{:?}", summarize(&self.rules)), "exemptions": self.exemptions,
-            "asserts": self.asserts.iter().map(|a| format!("{:?}", a)).collect::<Vec<_>>(), "aux": format!("{:?}", self.aux),
+            "asserts": self.asserts.iter().map(|a| format!("{:?}", a)).collect::<Vec<_>>(), "aux": format!("{:?}", self.aux), "aux_pow": self.aux_pow,
             "tail": format!("{:?}", self.tail), "init": self.init,
         })
     }
